@@ -90,3 +90,77 @@ pub fn uci_move_text(len: usize) {
     }
     kani::cover!(got.is_some() && (len == 4 || pr == 2));
 }
+
+// ---------------------------------------------------------------------------------------------
+// the `position` command handler itself (Uci::execute, Position branch), one move from ANY valid position
+// ---------------------------------------------------------------------------------------------
+use super::step;
+use crate::chess::game::Game;
+use crate::engine::uci::commands::{Position, UciCommand};
+use crate::engine::uci::verif_access as ua;
+
+static mut STASH: Option<Game> = None;
+static mut WATCHED: u16 = 0;
+
+/// contract stub of `Game::from_fen` (reading FEN text is C06's subject and string code): hands back the arbitrary valid game
+pub fn stub_from_fen(_fen: &str) -> Result<Game, String> {
+    unsafe { match (*core::ptr::addr_of_mut!(STASH)).take() { Some(g) => Ok(g), None => Err(String::new()) } }
+}
+/// contract stub of `Game::moves` (C01: exactly the legal moves): a list that contains the oracle-legal watched move at an
+/// arbitrary place among two other arbitrary moves (legal moves of one position differ in (source, destination, promotion))
+#[cfg(kani)]
+pub fn stub_moves(_g: &Game) -> MoveList {
+    let w = unsafe { WATCHED };
+    let (o0, o1, k): (u16, u16, u8) = (kani::any(), kani::any(), kani::any());
+    let differs = |o: u16| o != 0 && valid_flags(o) && !(pos::raw_src(o) == pos::raw_src(w) && pos::raw_dst(o) == pos::raw_dst(w) && pos::raw_promo(o) == pos::raw_promo(w));
+    kani::assume(differs(o0) && differs(o1) && k < 3);
+    let (a, b, c) = match k { 0 => (w, o0, o1), 1 => (o0, w, o1), _ => (o0, o1, w) };
+    let mut list = MoveList::new();
+    list.push(move_of(a));
+    list.push(move_of(b));
+    list.push(move_of(c));
+    list
+}
+
+/// `position fen <F> moves <m>`: the handler ends in exactly the game reached by playing the legal move whose long-algebraic
+/// text is <m> from <F> (placement, side, rights, ep target, clocks, history length, all three board views)
+pub fn position_cmd(kind: usize, side: u8) {
+    let (pre, g, w, m) = step::any_case(kind, side);
+    #[allow(unused_mut)] let mut pre = pre;
+    let sq: usize = kani::any();
+    kani::assume(sq < 64);
+    let um = UciMove::from(move_of(w));
+    #[cfg(not(test))]
+    let (fen, mut uci) = {
+        let uci = ua::mk_uci(pos::game_of(&pre.p));
+        unsafe { STASH = Some(g); WATCHED = w; }
+        (String::new(), uci)
+    };
+    #[cfg(test)]
+    let (fen, mut uci) = {
+        // native replay: no stubs - the real FEN reader and the real generator run; counters come from the parsed game
+        std::mem::forget(g);
+        let fen = format!("{} 0 1", pos::fen_of(&pre.p));
+        println!("REPLAY-CASE {{\"fen\":\"{}\",\"move\":\"{}\"}}", fen, pos::move_text(w));
+        let g0 = Game::from_fen(&fen).unwrap();
+        pre.clock = g0.halfmove_clock;
+        pre.plies = g0.plies;
+        pre.hist_len = g0.history.len();
+        (fen, ua::mk_uci(Game::new()))
+    };
+    let cmd = UciCommand::Position { position: Position::Fen(fen), moves: vec![um] };
+    let ok = ua::execute_ok(&mut uci, &cmd);
+    assert!(ok);
+    let want = step::expected_after(&pre.p, w, &m);
+    assert!(step::game_is(ua::game(&uci), &want, step::expected_clock(&pre, &m), pre.plies + 1, pre.hist_len + 1, sq));
+    kani::cover!(true);
+    kani::cover!(m.ep);
+    kani::cover!(m.capture && pos::raw_promo(w) != 0);
+    std::mem::forget(uci);
+    std::mem::forget(cmd);
+}
+
+/// Kani 0.68 panics while compiling the `catch_unwind` intrinsic of its own toolchain (generic, returns bool), which the drop glue
+/// of `JoinHandle<()>` in the `go` branch of `Uci::execute` reaches; panics abort under Kani anyway, so running the closure
+/// directly is the same behaviour. Not reachable from the `position` branch.
+pub unsafe fn stub_catch_unwind<T>(try_fn: fn(*mut T), data: *mut T, _catch_fn: fn(*mut T, *mut u8)) -> bool { try_fn(data); false }
